@@ -1276,6 +1276,11 @@ def value_method(it, base, attr, node):
             return bb(f)
         if attr == "copy":
             return bb(lambda: base)
+        if attr == "clear":
+            def f():
+                writeback(so.empty())
+                return NONE
+            return bb(f)
         if attr == "remove":
             def f(x):
                 x = it.coerce(x, so.elem)
